@@ -20,7 +20,7 @@ from . import extract as X
 from . import translate as T
 
 # developer override only (tools/unit.py on a stable copy while /repo is busy); registered checks always read /repo
-SRC_ROOT = os.environ.get('VERIF_DEV_SRC_ROOT', '/repo/rarena-allocator/src/')
+SRC_ROOT = os.environ.get('VERIF_DEV_SRC_ROOT', os.environ.get('VERIF_DEV_REPO', '/repo') + '/rarena-allocator/src/')
 
 
 class Fn:
